@@ -77,12 +77,17 @@ func startSession(query string, ms int) (*session, string, error) {
 		query = query[:i]
 	}
 	io.WriteString(in, query+"\n(check-sat)\n")
-	line, err := s.out.ReadString('\n')
-	if err != nil {
-		s.close()
-		return nil, "", err
+	for {
+		line, err := s.out.ReadString('\n')
+		if err != nil {
+			s.close()
+			return nil, "", err
+		}
+		if strings.HasPrefix(line, "WARNING") || strings.TrimSpace(line) == "" {
+			continue // z3 prints pattern warnings before the answer
+		}
+		return s, strings.TrimSpace(line), nil
 	}
-	return s, strings.TrimSpace(line), nil
 }
 
 func (s *session) close() {
@@ -812,8 +817,39 @@ func Replay(g *Gen, r *UnitResult, ob *Obligation, cfg SolverCfg, dir string) (r
 		return ReplayResult{Status: "not-attempted", Reason: "solver session: " + err.Error()}
 	}
 	defer s.close()
-	if first != "sat" {
+	// "unknown" (quantifiers the solver could not decide): z3 still holds a candidate model. It is not known to
+	// satisfy the assumptions, so the generated test checks the unit's preconditions on the concrete input first and
+	// only an input that passes them and then violates the clause on the real code counts as a counterexample.
+	candidate := first == "unknown"
+	if first != "sat" && !candidate {
 		return ReplayResult{Status: "not-attempted", Reason: "z3 5.1.0 did not reproduce the model interactively (answered " + first + ")"}
+	}
+	if candidate {
+		// no model after a timeout: ask again without the quantified assumptions (a weaker context, so any model
+		// of it is only a candidate - which is all this mode needs)
+		s.close()
+		var kept []string
+		lines := strings.Split(q, "\n")
+		goalAt := -1
+		for i, l := range lines {
+			if strings.HasPrefix(l, "(assert (not ") {
+				goalAt = i
+			}
+		}
+		for i, l := range lines {
+			if i != goalAt && strings.HasPrefix(l, "(assert ") && (strings.Contains(l, "(forall (") || strings.Contains(l, "(exists (")) {
+				continue
+			}
+			kept = append(kept, l)
+		}
+		s, first, err = startSession(strings.Join(kept, "\n"), 20000)
+		if err != nil {
+			return ReplayResult{Status: "not-attempted", Reason: "solver session: " + err.Error()}
+		}
+		defer s.close()
+		if first != "sat" {
+			return ReplayResult{Status: "not-attempted", Reason: "the solvers answered unknown and the quantifier-free weakening of the query gave no candidate model either (" + first + ")"}
+		}
 	}
 	b := &rbuilder{g: g, r: r, s: s, fn: fn, pkg: fn.Pkg.Pkg, declared: map[string]bool{}, imports: map[string]string{}, objs: map[string]string{},
 		strs: map[string]string{}, lits: map[string]string{}, summary: map[string]any{}}
@@ -894,11 +930,17 @@ func Replay(g *Gen, r *UnitResult, ob *Obligation, cfg SolverCfg, dir string) (r
 	if clause != nil {
 		oracle = tr.tr(clause)
 	}
+	var pres []string
+	if candidate {
+		for _, c := range ct.Requires {
+			pres = append(pres, tr.tr(c.E))
+		}
+	}
 	// assemble the test file
 	var src strings.Builder
 	fmt.Fprintf(&src, "package %s\n\nimport (\n\t\"math/big\"\n\t\"testing\"\n", fn.Pkg.Pkg.Name())
 	// imports of the package's own files (aliases used inside contract text) plus generated ones
-	used := oracle + strings.Join(tr.olds, "\n")
+	used := oracle + strings.Join(tr.olds, "\n") + strings.Join(pres, "\n")
 	fileImports := map[string]string{}
 	if p := g.pkgs[ct.Pkg]; p != nil {
 		for _, f := range p.Syntax {
@@ -954,6 +996,9 @@ func Replay(g *Gen, r *UnitResult, ob *Obligation, cfg SolverCfg, dir string) (r
 		src.WriteString("\t" + o + "\n")
 		src.WriteString("\t_ = " + strings.SplitN(o, " ", 2)[0] + "\n")
 	}
+	for i, pc := range pres {
+		fmt.Fprintf(&src, "\tif !(%s) {\n\t\tt.Logf(\"REPLAY candidate input violates precondition %d\")\n\t\treturn\n\t}\n", pc, i+1)
+	}
 	src.WriteString("\tpanicked := true\n\tfunc() {\n\t\tdefer func() {\n\t\t\tif x := recover(); x != nil {\n\t\t\t\tt.Logf(\"REPLAY panic: %v\", x)\n\t\t\t}\n\t\t}()\n")
 	if nres > 0 {
 		for i := 0; i < nres; i++ {
@@ -985,6 +1030,10 @@ func Replay(g *Gen, r *UnitResult, ob *Obligation, cfg SolverCfg, dir string) (r
 	if !ran {
 		res.Status = "not-attempted"
 		res.Reason = "the generated test did not build or run (see output)"
+		return res
+	}
+	if strings.Contains(out, "REPLAY candidate input violates precondition") {
+		res.Reason = "the solver answered unknown; its candidate model does not satisfy the unit's preconditions when built as a concrete input"
 		return res
 	}
 	switch ob.Kind {
